@@ -1,0 +1,17 @@
+//go:build verif
+
+package binary
+
+import "github.com/thanos-community/promql-engine/execution/model"
+
+// VerifChildren exposes the child slots of the operators of this package to the
+// verification harness (build tag verif only).
+func VerifChildren(op model.VectorOperator) []*model.VectorOperator {
+	switch o := op.(type) {
+	case *vectorOperator:
+		return []*model.VectorOperator{&o.lhs, &o.rhs}
+	case *scalarOperator:
+		return []*model.VectorOperator{&o.next, &o.scalar}
+	}
+	return nil
+}
